@@ -207,8 +207,8 @@ def run(ctx):
             continue
         k, o = world.objs[name]
         if kind == "spectrum" and rng.random() < 0.6:
-            o.start_frequency = rng.choice([5, 0, 2.5, -3, 1e6, True])
-            o.frequency_increment = rng.choice([2, 1, 0.25, 10**6])
+            o.start_frequency = rng.choice([5, 0, 2.5, -3, 1e6, True, -0.0, 0.0, 5e-324, float("inf")])
+            o.frequency_increment = rng.choice([2, 1, 0.25, 10**6, -0.0, 0.0])
         if kind == "digital" and rng.random() < 0.7:
             _ = [s.name for s in o.signals]       # populate the name cache
             if rng.random() < 0.6:
@@ -288,6 +288,44 @@ def run(ctx):
                 twin = None
             if twin is not None and not (twin == o):
                 ctx.violation(what="equal observable state, different slack", type=kind, observed="not equal", required="equal")
+    # Spectrum frequencies given to the constructor in every spelling of zero and of a float (the copy has the same value AND type)
+    from nitypes.waveform import Spectrum
+    for sf in (0.0, -0.0, np.float64(0.0), np.float64(-0.0), np.float64(2.5), np.float32(0.5), 3, True, 1e-320):
+        for fi in (0.0, -0.0, np.float64(0.0), 1.0):
+            r = outcome(lambda: Spectrum(3, np.float64, start_frequency=sf, frequency_increment=fi))
+            if r[0] == "ok":
+                check_value(ctx, "Spectrum(frequencies)", r[1], lambda x: (repr(x.start_frequency), repr(x.frequency_increment), type(x.start_frequency).__name__,
+                                                                      type(x.frequency_increment).__name__, x.data.tobytes()))
+    # several digital waveforms sharing one property dictionary, some of them gone (garbage collected) by the time the names change:
+    # the survivor's names follow, and so do its copies
+    import gc
+    for case in range(30 if ctx.quick else 600):
+        nsig = rng.randint(1, 4)
+        first = DigitalWaveform(2, nsig, extended_properties={H.LINE_NAMES: ", ".join(f"a{j}" for j in range(nsig))})
+        sharers = [first]
+        for _k in range(rng.randint(1, 3)):
+            sharers.append(copy.copy(sharers[-1]) if rng.random() < 0.5 else
+                           DigitalWaveform(2, nsig, extended_properties=first.extended_properties, copy_extended_properties=False))
+        for w_ in sharers:
+            if rng.random() < 0.7:
+                _ = [s_.name for s_ in w_.signals]
+        keep = rng.randrange(len(sharers))
+        survivor = sharers[keep]
+        del sharers, first, w_
+        gc.collect()
+        for _step in range(rng.randint(1, 3)):
+            c = rng.random()
+            if c < 0.4:
+                survivor.extended_properties[H.LINE_NAMES] = ", ".join(f"x{rng.randint(0, 9)}" for _ in range(nsig))
+            elif c < 0.7:
+                survivor.signals[rng.randrange(nsig)].name = f"r{rng.randint(0, 9)}"
+            elif c < 0.85:
+                survivor.extended_properties.pop(H.LINE_NAMES, None)
+            else:
+                src = DigitalWaveform(0, nsig, extended_properties={H.LINE_NAMES: ", ".join(f"m{j}" for j in range(nsig))})
+                survivor.append(src)
+        check_value(ctx, "DigitalWaveform(shared properties, sharers collected)", survivor,
+                    lambda x: (tuple(s_.name for s_ in x.signals), list(x.extended_properties.items()), x.data.tobytes()))
     for r in world.records:
         if r["line"].startswith("wpickle") and r["err"] is not None:
             ctx.violation(what="pickle/deepcopy failed in history", line=r["line"], observed=r["err"], required="a copy")
